@@ -243,6 +243,18 @@ class ElementList(MutableSequence):
         :type child: :class:`Element <hl7apy.core.Element>`
         :param child: an instance of an :class:`Element <hl7apy.core.Element>` subclass
         """
+        if child.parent != self.element and child.traversal_parent != self.element and \
+                self.element._is_valid_child(child):
+            # attach the child here, at the requested position: going through ``child.parent = ...``
+            # (as _can_add_child does) would append it at the end of the list and drop the index
+            previous = (child._parent, child._traversal_parent)
+            child._traversal_parent = None
+            child._parent = self.element
+            try:
+                self._can_add_child(child)
+            except Exception:
+                child._parent, child._traversal_parent = previous
+                raise
         if self._can_add_child(child):
             try:
                 if by_name_index == -1:
